@@ -1292,6 +1292,11 @@ func toString(v interface{}) string {
 	case []byte:
 		return string(val)
 	case fmt.Stringer:
+		// A nil pointer has no string form (calling a String method with a value
+		// receiver through it would panic)
+		if rv := reflect.ValueOf(val); rv.Kind() == reflect.Ptr && rv.IsNil() {
+			return ""
+		}
 		return val.String()
 	}
 
